@@ -20,8 +20,9 @@ type Config struct {
 	PRefInLiteral int
 	PLiteral      int // use a literal even when a ref is available
 	PNullLit      int
-	PFileTypes    int // bias towards file-like leaf types
-	POutClash     int // explicit out name equal to a sibling's default output file name (the compiler must reject it)
+	PFileTypes    int  // bias towards file-like leaf types
+	ForceSplit    bool // skeletons: USE2 always splits
+	POutClash     int  // explicit out name equal to a sibling's default output file name (the compiler must reject it)
 	PPreflight    int
 	PVolatile     int
 	PRetain       int
@@ -46,10 +47,10 @@ type Config struct {
 	// (array-outer x map-inner fork ids are broken in the unchanged tree:
 	// C11 finding).
 	AllowMixedNestedMap bool
-	MultiFile                 bool
-	HostileStrings            bool
-	KeyPool                   []string
-	SrcFor                    func(stage string) (lang, src string)
+	MultiFile           bool
+	HostileStrings      bool
+	KeyPool             []string
+	SrcFor              func(stage string) (lang, src string)
 	// Only types whose literals the probe can shape.
 	// Wide map literals (9..WideMaps keys) to expose unsorted traversals.
 	WideMaps     int
@@ -89,11 +90,11 @@ type gen struct {
 	curUsed  map[string]bool
 	curLevel int
 	curEnv   *[]envEntry
-	r    *rand.Rand
-	cfg  *Config
-	p    *Program
-	nid  int
-	info map[string]*pipeInfo
+	r        *rand.Rand
+	cfg      *Config
+	p        *Program
+	nid      int
+	info     map[string]*pipeInfo
 }
 
 type pipeInfo struct {
